@@ -1,7 +1,7 @@
 """C11 — output depends only on source, options and interpreter version.
 
 Four owned sources of nondeterminism, each enumerated exhaustively within its bound:
- 1 histories  explicit-state BFS over call sequences (16-call alphabet chosen to collide on everything shareable: reused preserve lists, a
+ 1 histories  explicit-state BFS over call sequences (19-call alphabet chosen to collide on everything shareable: reused preserve lists, a
               type-parameter program, an __all__ program, shared and default option objects, f-strings, name-exhausting programs, awslambda,
               calls that raise).  Every history runs in its own fresh process; state = digest of every mutable object reachable from
               python_minifier's module globals, class attributes and function defaults + the caller-owned argument objects.  Invariants on
@@ -30,8 +30,8 @@ RULE = ('states = distinct (state digest, argument objects) values reached by ca
         'argument object or follow a raising call, schedules with a real preemption, permutations other than the identity, seeds other than 0.')
 ASSUMPTIONS = ['the GIL: scheduling points are line/call events, not bytecodes', 'hash seeds are a bounded enumeration, backed by explicit control of set iteration order']
 WORKER = os.path.join(core.HERE, 'mc', 'c11_worker.py')
-CALL_NAMES = ['rename+L1', 'typeparam+L1', 'all+G1', 'rename+G1', 'typeparam+G1', 'ann+RA', 'ann-default', 'fstring', 'hoist', 'hoist2', 'fold', 'fold2',
-              'awslambda', 'syntaxerror', 'midfail', 'rename+str']
+CALL_NAMES = ['rename+L1', 'typeparam+L1', 'all+G1', 'rename+G1', 'typeparam+G1', 'ann+RA', 'ann-default', 'hints', 'hints+RA', 'fstring', 'hoist', 'hoist2', 'fold',
+              'fold2', 'deep', 'awslambda', 'syntaxerror', 'midfail', 'rename+str']
 
 
 def env(seed='0'):
@@ -212,9 +212,17 @@ def check_setorder(part, nparts, res):
 
 # ---- thread schedules ------------------------------------------------------------------------------------------------------------------------------
 
+def interpreter_state():
+    import threading
+    import warnings
+    return (sys.getrecursionlimit(), sys.getswitchinterval(), len(sys.path), os.getcwd(), len(os.environ), len(warnings.filters), threading.stack_size(),
+            getattr(sys, 'get_int_max_str_digits', lambda: 0)())
+
+
 THREAD_PROGRAMS = [
     ("def alpha(first_argument):\n    text = 'shared literal text'\n    other = 'shared literal text'\n    return f'{first_argument!r} {text} {other}' + 'shared literal text' + str(60 * 60)\nprint(alpha(1))\n", {}),
     ("def beta(value_name, second_name):\n    result_name = value_name + second_name\n    return [result_name, result_name, b'other bytes value', b'other bytes value', None, None, None, None]\nprint(beta(1, 2), 1 + 2)\n", {'rename_globals': True}),
+    ("deep_value = " + " + ".join(["term_name"] * 150) + "\nprint(deep_value)\n", {}),
     ("class Gamma:\n    def method(self, argument_name):\n        local_name = argument_name\n        return local_name * 24 * 60\nprint(Gamma().method(2), 'third literal', 'third literal')\n", {'remove_literal_statements': True}),
 ]
 
@@ -238,7 +246,7 @@ def check_schedules(tier, part, nparts, res):
         expected.append(python_minifier.minify(src, **kw))
         python_minifier.minify(src, **kw)
     plans = []
-    pairs = [(0, 1), (1, 0)] if tier == 'quick' else list(itertools.permutations(range(3), 2))
+    pairs = [(0, 1), (1, 0)] if tier == 'quick' else [p for p in itertools.permutations(range(4), 2) if p[0] != 2]      # the deep program (2) is never the one preempted at every line
     for a, b in pairs:
         plans.append(('line', (a, b)))
     n = 0
@@ -269,9 +277,26 @@ def check_schedules(tier, part, nparts, res):
                                   list(idxs), schedule, 'never finished / deadlocked: ' + str(out[1]) if out[0] == 'diverged' else 'passed %d scheduling points' % out[2][0], npoints))
                 continue
             verify(out[1], idxs, expected, res, case, True)
+    # two preemptions close to the entry of both calls (call granularity): the window in which a call that saves / changes / restores
+    # process-wide state overlaps another one doing the same
+    early = 16 if tier == 'quick' else 40
+    for a, b in [(0, 1), (0, 2), (2, 1)]:
+        idxs = (a, b)
+        for k1 in range(1, early + 1):
+            for k2 in range(1, early + 1):
+                n += 1
+                if n % nparts != part:
+                    continue
+                schedule = [(0, k1), (1, k2), (0, None), (1, None)]
+                out = run_schedule(idxs, schedule, 'call')
+                case = {'gran': 'call', 'threads': list(idxs), 'schedule': schedule}
+                if out[0] == 'diverged':
+                    res.violation('thread-path-depends-on-schedule:program%d' % idxs[0], dict(case, kind='sched'), out[1])
+                    continue
+                verify(out[1], idxs, expected, res, case, True)
     if tier == 'thorough':
         # pairs of preemptions at call granularity, and three threads at bound 1
-        for a, b in [(0, 1), (1, 2)]:
+        for a, b in [(0, 1), (1, 3)]:
             idxs = (a, b)
             results, points = sched.Run(thread_bodies(idxs), [], 'call').execute()
             na = points[0]
@@ -288,7 +313,7 @@ def check_schedules(tier, part, nparts, res):
                         res.violation('thread-path-depends-on-schedule:program%d' % idxs[0], {'gran': 'call', 'threads': list(idxs), 'schedule': schedule, 'kind': 'sched'}, out[1])
                         continue
                     verify(out[1], idxs, expected, res, {'gran': 'call', 'threads': list(idxs), 'schedule': schedule}, True)
-        idxs = (0, 1, 2)
+        idxs = (0, 1, 3)
         results, points = sched.Run(thread_bodies(idxs), [], 'line').execute()
         for k in range(1, points[0] + 1):
             for order in ((1, 2), (2, 1)):
@@ -305,11 +330,17 @@ def check_schedules(tier, part, nparts, res):
 
 def run_schedule(idxs, schedule, gran):
     from mc import sched
+    before = interpreter_state()
     try:
         results, pts = sched.Run(thread_bodies(idxs), schedule, gran).execute()
-        return ('ok', results, pts)
     except sched.Diverged as e:
         return ('diverged', str(e), None)
+    after = interpreter_state()
+    if after != before:
+        # restore what can be restored so that later schedules start from the same state, and report
+        sys.setrecursionlimit(before[0])
+        results = list(results) + [('state', 'interpreter-wide state changed by the concurrent calls: %r -> %r' % (before, after))]
+    return ('ok', results, pts)
 
 
 def verify(results, idxs, expected, res, case, preempted):
@@ -318,6 +349,9 @@ def verify(results, idxs, expected, res, case, preempted):
     if preempted:
         res.count('distinct_nontrivial')
     ok = True
+    for extra in results[len(idxs):]:
+        ok = False
+        res.violation('process-state-changed-under-schedule', dict(case, kind='sched'), 'threads %s schedule %s: %s' % (list(idxs), case['schedule'], extra[1]))
     for pos, i in enumerate(idxs):
         r = results[pos]
         if r != ('ok', expected[i]):
@@ -332,7 +366,7 @@ def verify(results, idxs, expected, res, case, preempted):
 
 # ---- tasks ---------------------------------------------------------------------------------------------------------------------------------------
 
-CORE_CALLS = ['rename+L1', 'typeparam+L1', 'all+G1', 'ann+RA', 'midfail', 'hoist', 'hoist2', 'fold', 'fold2']
+CORE_CALLS = ['rename+L1', 'typeparam+L1', 'all+G1', 'ann+RA', 'ann-default', 'hints', 'midfail', 'hoist2', 'fold2']
 
 
 def histories(depth, tier='thorough'):
